@@ -92,7 +92,7 @@ func (s *PFCPSession) MarkSessionQer(qers []qer) {
 			return
 		}
 
-		copy(sessQerIDList, sList)
+		sessQerIDList = sList
 	}
 
 	// Loop through qer list and mark qer which matches
